@@ -145,7 +145,19 @@ def wf_family(prop, tier):
 
 
 def layout_family(tier):
-    return []
+    """Programs for C16: every statement/expression kind the two emitters order differently (hybrids, loops, branches,
+    nested blocks, immediates, folded constants, sub-routine calls)."""
+    rng = random.Random(seed() * 7919 + 16)
+    out = []
+    out += c05_struct()
+    out += c06(tier)[:: (1 if tier == "thorough" else 3)]
+    out += c05_assign()[:: (1 if tier == "thorough" else 5)]
+    d1 = c02_depth1()
+    out += d1[:: (3 if tier == "thorough" else 16)]
+    out += [p for p in c09(tier) if "?" in p][:: (1 if tier == "thorough" else 4)]
+    out += c05_random(tier, rng)
+    out += c07(tier)[:: (1 if tier == "thorough" else 5)]
+    return list(dict.fromkeys(out))
 
 
 # ------------------------------------------------------------------------------------------ C03
